@@ -781,11 +781,46 @@ def e2e(ctx, cases, impl, accepted, ncorpus, nvalid):
         shutil.rmtree(tmp, ignore_errors=True)
 
 
+KNOWN_CREATE_OPTIONS = {"dry-run", "follow-symlinks", "force", "help", "ignore", "include-hidden", "include-junk", "md5", "no-created-by",
+                        "no-creation-date", "open", "link", "private", "show", "version", "allow", "announce", "announce-tier", "comment",
+                        "node", "glob", "input", "name", "output", "peer", "piece-length", "sort-by", "source", "update-url"}
+
+
+def unknown_create_options(ctx):
+    """Options of `torrent create` this check does not know, read from the binary's own --help: [(flag, value or None)]. A new
+    option is a new input of the command; it is given (with a plausible value made from its placeholder) in part of the
+    create runs, so that whatever it does to the written dictionary is also seen by the five reported infohashes. (Added after
+    seeded change C04-15: `--info-entry KEY=VALUE` entries were written to the file but not hashed by --link / --show.)"""
+    rc, out, err = ctx.imdl(["torrent", "create", "--help"], env={"NO_COLOR": "1", "TERM": "dumb", "IMDL_TERM_WIDTH": "400"})
+    found = []
+    for m in re.finditer(rb"^\s+(?:-\w, )?--([a-z][a-z0-9-]*)(?:\s+<([^>\n]+)>)?", out, re.M):
+        name, ph = m.group(1).decode(), (m.group(2) or b"").decode()
+        if name in KNOWN_CREATE_OPTIONS or any(name == f[0][2:] for f in found):
+            continue
+        if not ph:
+            val = None
+        elif "=" in ph:
+            val = "x_custom=value %d" % len(found)
+        elif "URL" in ph.upper():
+            val = "http://new.example/x"
+        elif any(w in ph.upper() for w in ("NUM", "COUNT", "BYTES", "SIZE", "N")) and len(ph) < 8:
+            val = "1"
+        else:
+            val = "x-value"
+        found.append(("--" + name, val))
+    return found
+
+
 def created(ctx):
     """create --link --show, then show / show --json / link on the file create wrote: five infohashes, one span"""
     r = ctx.rng
     tmp = tempfile.mkdtemp(prefix="c04c-")
     jobs = []
+    new_opts = unknown_create_options(ctx)
+    if new_opts:
+        msg = "`imdl torrent create --help` lists options this check does not know (%s); they are given in part of the create runs" % \
+              ", ".join(f for f, _ in new_opts)
+        ctx.notes.append(msg); print("NOTE property=C04 " + msg)
     for j in range(ctx.n(90, 2500)):
         opts = []
         if r.random() < 0.4: opts += ["--private", "--allow", "private-trackerless"]
@@ -817,6 +852,9 @@ def created(ctx):
         if multi and r.random() < 0.2:
             opts += ["--glob", r.choice(["*1", "!*0", "dir/*", "*"])]
         if r.random() < 0.15: opts += ["--peer", "peer.example.com:7"]
+        for flag, val in new_opts:
+            if r.random() < 0.5:
+                opts += [flag] + ([val] if val is not None else [])
         jobs.append((j, opts, multi, files))
 
     def one(job):
@@ -831,6 +869,20 @@ def created(ctx):
         inp = "content" if multi else files[0][0]
         env = {"NO_COLOR": "1", "TERM": "dumb"}
         argv = ["torrent", "create", "--input", inp, "--output", "o.torrent", "--link", "--show"] + opts
+        if j % 4 == 1:
+            # state left by an earlier run and by another tool: the output path already holds the torrent of the same content and
+            # options, with one more key in its info dictionary (a cross-seed marker); the forced re-creation reports the
+            # infohash of what is in the file AFTERWARDS (added after seeded change C04-14: an "up to date" shortcut compared
+            # the typed values only, kept the file and printed the hash of the dictionary without the extra key)
+            rc0, _, _ = ctx.imdl(["torrent", "create", "--input", inp, "--output", "o.torrent"] + opts, cwd=d, env=env)
+            try:
+                old, _ = lib.bdecode_strict(open(os.path.join(d, "o.torrent"), "rb").read())
+                pairs = [(k, (("d", sorted(v[1] + [(b"x_cross_seed", b"marker")])) if k == b"info" else v)) for k, v in old[1]]
+                with open(os.path.join(d, "o.torrent"), "wb") as f:
+                    f.write(lib.bencode(("d", pairs)))
+                argv = argv[:2] + ["--force"] + argv[2:]
+            except Exception:
+                pass
         rc, out, err = ctx.imdl(argv, cwd=d, env=env)
         res = {"create-rc": rc}
         data = b""
